@@ -1037,3 +1037,78 @@ def register(reg):      # noqa: F811
     reg.add(TupleEncode())
     reg.add_loop("serialization.py::TupleCodec.encode", 0,
                  LoopSpec(_tuple_enc_inv, modifies=("$stream.content", "$stream.pos"), lemmas=_tuple_enc_lemmas))
+
+
+# ------------------------------------------------------------------------------------------- float / double
+from pyvc.iomodel import is_float, fpack, funpack      # noqa: E402
+
+FLOAT_CODECS = {"Float32Codec": ("<f", 4), "Float64Codec": ("<d", 8)}
+
+
+class FloatEncode(CodecBase):
+    """float / double: struct.pack with the little-endian IEEE format of the declared width ('<f' / '<d'); relative to
+    struct's own contract (floats themselves are opaque values here)"""
+    target = "serialization.py::FloatCodec.encode"
+
+    def __init__(self, cls):
+        self.cls = cls
+        self.variant = cls
+        self.self_cls = cls
+        self.fmt, self.n = FLOAT_CODECS[cls]
+        self.params = {"out": "stream", "val": "val", "serialization": "val", "subtypes": "val"}
+        self.modifies = {"$stream.content": only("out"), "$stream.pos": only("out")}
+        super().__init__()
+
+    def selects(self, self_cls, args, kwargs=None):
+        return self_cls == self.cls
+
+    def pre(self, c, a):
+        return append_pre(c, a.out.t)
+
+    def raises(self, c0, a):
+        return {"EncodeError": z3.Not(z3.And(is_float(to_val(a.val)), self.no_subtypes(a)))}
+
+    def post(self, c0, c1, a, res):
+        s = a.out.t
+        return {"little_endian_ieee_of_the_declared_width": content(c1, s) == z3.Concat(
+                    content(c0, s), fpack(VStr(z3.StringVal(self.fmt)), to_val(a.val))),
+                "width": z3.Length(content(c1, s)) == z3.Length(content(c0, s)) + self.n,
+                "position_at_end": pos(c1, s) == z3.Length(content(c1, s))}
+
+
+class FloatDecode(CodecBase):
+    target = "serialization.py::FloatCodec.decode"
+
+    def __init__(self, cls):
+        self.cls = cls
+        self.variant = cls
+        self.self_cls = cls
+        self.fmt, self.n = FLOAT_CODECS[cls]
+        self.params = {"raw_bytes": "stream", "serialization": "val", "subtypes": "val", "get_by_uuid": "val"}
+        self.modifies = {"$stream.pos": only("raw_bytes")}
+        self.result = "val"
+        super().__init__()
+
+    def selects(self, self_cls, args, kwargs=None):
+        return self_cls == self.cls
+
+    def pre(self, c, a):
+        return read_pre(c, a.raw_bytes.t, self.n)
+
+    def raises(self, c0, a):
+        return {"DecodeError": z3.Not(self.no_subtypes(a))}
+
+    def post(self, c0, c1, a, res):
+        s = a.raw_bytes.t
+        return {"value_of_next_bytes": to_val(res) == funpack(VStr(z3.StringVal(self.fmt)), nxt(c0, s, 0, self.n)),
+                "consumes_exactly_n": pos(c1, s) == pos(c0, s) + self.n}
+
+
+_reg8 = register
+
+
+def register(reg):      # noqa: F811
+    _reg8(reg)
+    for cls in FLOAT_CODECS:
+        reg.add(FloatEncode(cls))
+        reg.add(FloatDecode(cls))
